@@ -76,10 +76,14 @@ def check_one(ctx, spec, work, tag):
     scs = rng.choice([1, 2, max(1, s), s + 1, None])
     sep = rng.choice([None, "/", "."])
     parts = rng.choice([None, 1, 3, 8])
+    # a chunk cap, binding or not (cap * chunk size may exceed the number of records)
+    cap = rng.choice([None, None, 1, 2, 3, n + 2, 100]) if vcs is not None else None
+    n_out = n if cap is None else min(n, cap * vcs)
     inp = {"vcf_spec": spec, "variants_chunk_size": vcs, "samples_chunk_size": scs, "dimension_separator": sep,
-           "encode_partitions": parts}
+           "encode_partitions": parts, "max_variant_chunks": cap}
+    ctx.count("cap_none" if cap is None else ("cap_binding" if cap * vcs < n else "cap_not_binding"))
     has_rag = any(f["number"] in "RAG" for f in spec["infos"] + spec["formats"])
-    ctx.case((tag, repr(spec["records"])[:2000], vcs, scs, sep, parts), has_rag or (vcs or 10**4) < n)
+    ctx.case((tag, repr(spec["records"])[:2000], vcs, scs, sep, parts, cap), has_rag or (vcs or 10**4) < n)
     ctx.count(f"sep_{sep}")
     ctx.count("distributed" if parts else "oneshot")
     try:
@@ -87,10 +91,11 @@ def check_one(ctx, spec, work, tag):
         if parts is None:
             from bio2zarr import vcf2zarr
             shutil.rmtree(out, ignore_errors=True)
-            vcf2zarr.encode(icf, out, variants_chunk_size=vcs, samples_chunk_size=scs, dimension_separator=sep, worker_processes=0)
+            vcf2zarr.encode(icf, out, variants_chunk_size=vcs, samples_chunk_size=scs, dimension_separator=sep, worker_processes=0,
+                            max_variant_chunks=cap)
         else:
             convlib.encode(icf, out, partitions=parts, order=rng, variants_chunk_size=vcs, samples_chunk_size=scs,
-                           dimension_separator=sep)
+                           dimension_separator=sep, max_variant_chunks=cap)
     except Exception as e:  # noqa: BLE001
         ctx.violate(f"conversion failed: {type(e).__name__}: {str(e)[:200]}", inp, "store", repr(e)[:200])
         return
@@ -102,8 +107,9 @@ def check_one(ctx, spec, work, tag):
     root = zarr.open(str(out), mode="r")
     for name, a in root.arrays():
         dims = a.attrs.get("_ARRAY_DIMENSIONS", [])
-        if dims and dims[0] == "variants" and a.shape[0] != n:
-            ctx.violate(f"{name}: variants axis {a.shape[0]} != {n} records", inp, n, a.shape[0])
+        if dims and dims[0] == "variants" and a.shape[0] != n_out:
+            ctx.violate(f"{name}: variants axis {a.shape[0]} != {n_out} records" + (f" (chunk cap {cap} x {vcs})" if cap else ""),
+                        inp, n_out, a.shape[0])
         if len(dims) > 1 and dims[1] == "samples" and a.shape[1] != s:
             ctx.violate(f"{name}: samples axis {a.shape[1]} != {s} samples", inp, s, a.shape[1])
     ctx.sample({"records": n, "samples": s, "chunks": [vcs, scs], "separator": sep, "partitions": parts,
